@@ -4,6 +4,8 @@ import (
 	"bytes"
 	"encoding/json"
 	"fmt"
+	"github.com/robfig/soy/ast"
+	"github.com/robfig/soy/soymsg"
 	"strings"
 	"sync"
 	"sync/atomic"
@@ -65,6 +67,92 @@ func genJS(reg *template.Registry, o soyjs.Options) (map[string]string, error) {
 		out[sf.Name] = buf.String()
 	}
 	return out, nil
+}
+
+// c14ReorderedTags: a message full of HTML tags under a translation that moves the tag placeholders around (putting
+// some side by side): both backends must produce the translation with every placeholder replaced by the characters of
+// its tag, on the first generation and on the second one from the same compiled bundle.
+func c14ReorderedTags(ctx *fw.Ctx, e jsx.Engine) *fw.Result {
+	r := ctx.Rng
+	tags := [][2]string{{"<b>", "</b>"}, {"<i>", "</i>"}, {"<a href=\"/x?a=1&amp;b=2\">", "</a>"}, {"<span class=\"k\">", "</span>"}, {"<em>", "</em>"}, {"<u>", "</u>"}}
+	r.Shuffle(len(tags), func(a, b int) { tags[a], tags[b] = tags[b], tags[a] })
+	n := 2 + r.Intn(3)
+	var body strings.Builder
+	for k := 0; k < n; k++ {
+		fmt.Fprintf(&body, "%sw%d%s", tags[k][0], k, tags[k][1])
+		if r.Bool() {
+			fmt.Fprintf(&body, " t%d ", k)
+		}
+	}
+	src := "{namespace mt}\n/** */\n{template .t}\n{msg desc=\"d\"}" + strings.TrimSpace(body.String()) + "{/msg}\n{/template}\n"
+	files := []srcFile{{"mt.soy", src}}
+	reg, err := compileRegistry(files, nil)
+	if err != nil {
+		return &fw.Result{Verdict: fw.Inconclusive, Key: "tag-message-does-not-compile", Msg: errText(err), Case: src}
+	}
+	var msg *ast.MsgNode
+	tagOf := map[string]string{}
+	for _, t := range reg.Templates {
+		walkAst(t.Node, func(nd ast.Node) {
+			switch nd := nd.(type) {
+			case *ast.MsgNode:
+				msg = nd
+			case *ast.MsgPlaceholderNode:
+				if h, ok := nd.Body.(*ast.MsgHtmlTagNode); ok {
+					tagOf[nd.Name] = string(h.Text)
+				}
+			}
+		})
+	}
+	if msg == nil || len(tagOf) < 2 {
+		return &fw.Result{Verdict: fw.Inconclusive, Key: "tag-message-has-no-tag-placeholders", Case: src}
+	}
+	var names []string
+	for _, p := range soymsg.Parts(soymsg.PlaceholderString(msg)) {
+		if ph, ok := p.(soymsg.PlaceholderPart); ok {
+			names = append(names, ph.Name)
+		}
+	}
+	r.Shuffle(len(names), func(a, b int) { names[a], names[b] = names[b], names[a] })
+	var tr, want strings.Builder
+	for k, nm := range names {
+		tr.WriteString("{" + nm + "}")
+		want.WriteString(tagOf[nm])
+		if k%2 == 1 && r.Bool() {
+			tr.WriteString("z" + fmt.Sprint(k))
+			want.WriteString("z" + fmt.Sprint(k))
+		}
+	}
+	bundle := &fakeBundle{msgs: map[uint64]*soymsg.Message{msg.ID: soymsg.NewMessage(msg.ID, tr.String())}, locale: "xx"}
+	cd := map[string]interface{}{"source": src, "translation": tr.String(), "expected": want.String()}
+	goOut, gerr := render(soyhtml.NewTofu(reg), "mt.t", nil, nil, bundle)
+	ctx.Obs("reordered_tag_messages", 1)
+	if gerr != nil || goOut != want.String() {
+		return &fw.Result{Verdict: fw.Violated, Key: "literal-not-preserved:go:reordered-tags", Case: cd, Msg: fmt.Sprintf("Go renderer under the reordering translation: %q (err %v), expected %q", goOut, gerr, want.String())}
+	}
+	for round := 1; round <= 2; round++ {
+		js, err := genJS(reg, soyjs.Options{Messages: bundle})
+		if err != nil {
+			return &fw.Result{Verdict: fw.Violated, Key: "js-generation-fails:reordered-tags", Case: cd, Msg: errText(err)}
+		}
+		if _, err := loadBundleJS(e, reg, js); err != nil {
+			if _, isEng := err.(jsx.EngineError); isEng {
+				return &fw.Result{Verdict: fw.Inconclusive, Key: "engine-failure", Msg: err.Error()}
+			}
+			cd["js"] = js["mt.soy"]
+			return &fw.Result{Verdict: fw.Violated, Key: "js-does-not-load:reordered-tags", Case: cd, Msg: fmt.Sprintf("generation %d: %v", round, fw.Trim(err.Error(), 300))}
+		}
+		out, typ, jerr := e.Eval("mt.t({}, null, {})")
+		if jerr != nil || typ != "string" || out != want.String() {
+			if _, isEng := jerr.(jsx.EngineError); isEng {
+				return &fw.Result{Verdict: fw.Inconclusive, Key: "engine-failure", Msg: jerr.Error()}
+			}
+			cd["js"] = js["mt.soy"]
+			return &fw.Result{Verdict: fw.Violated, Key: "literal-not-preserved:js:reordered-tags", Case: cd,
+				Msg: fmt.Sprintf("generation %d of the JavaScript under the reordering translation returns %q (err %v), expected %q", round, out, jerr, want.String())}
+		}
+	}
+	return nil
 }
 
 func jsonArg(v interface{}) string {
@@ -268,6 +356,11 @@ func init() {
 				files = append(files, srcFile{"reserved.soy", "{namespace res.erved}\n/** @param " + w + " */\n{template .t}\n{$" + w + "}{let $" + w2 + ": 1 /}{$" + w2 + "}{foreach $" + w2 + " in [1,2]}{$" + w2 + "}{index($" + w2 + ")}{/foreach}" +
 					"{let $" + w2 + "}c{/let}{$" + w2 + "}{call .u}{param " + w + ": $" + w + " /}{/call}\n{/template}\n/** @param? " + w + " */\n{template .u}{$" + w + " ?: ''}{/template}\n"})
 				ctx.Cell("reserved-word-names")
+			}
+			if i%4 == 2 {
+				if r := c14ReorderedTags(ctx, e); r != nil {
+					return *r
+				}
 			}
 			if i%3 == 0 && len(files) >= 2 {
 				// file names that are prefixes / suffixes of one another, the longer one first: names identify files exactly
